@@ -126,6 +126,11 @@ func verifyFuncPass(P *Program, DB *ContractDB, fn *ssa.Function, k *FuncContrac
 		vc.assume("true", fr.allocFact(st, t, p.Type()))
 		cv := cval{t: t, typ: p.Type(), sort: vc.sortOf(p.Type())}
 		env.vars[p.Name()] = cv
+		if i < len(k.Params) && k.Params[i] != p.Name() {
+			// renamed by the contract ("params ..."), e.g. to free the word "result"
+			delete(env.vars, p.Name())
+			env.vars[k.Params[i]] = cv
+		}
 		env.vars[fmt.Sprintf("p%d", i)] = cv
 		if i == 0 && fn.Signature.Recv() != nil {
 			env.vars["self"] = cv
@@ -185,6 +190,20 @@ func verifyFuncPass(P *Program, DB *ContractDB, fn *ssa.Function, k *FuncContrac
 		ev.MustFail = true
 		vc.lines = vc.lines[:len(vc.lines)-1]
 		ev.NLines = len(vc.lines)
+		// every return statement should be reachable under the assumed contracts: an
+		// unreachable one usually means an over-strong (contradictory) assumption made
+		// part of the body dead, so that its obligations hold vacuously (reported as a
+		// warning: dead code and precondition-excluded paths are legitimate)
+		if len(fr.rets) > 1 && len(fr.rets) <= 24 {
+			for i, r := range fr.rets {
+				line := vc.P.Prog.Fset.Position(r.pos).Line
+				rv := vc.oblige("vacuity", fmt.Sprintf("%s/%s/vacuity[return#%d-reachable L%d]", prop, vc.qname, i+1, line), "this return statement is reachable under the assumed contracts", r.cond, "false", r.pos, true)
+				rv.MustFail = true
+				rv.Soft = true
+				vc.lines = vc.lines[:len(vc.lines)-1]
+				rv.NLines = len(vc.lines)
+			}
+		}
 		post := env.at(ex.st, nil)
 		post.old = vc.entry
 		post.results = nil
